@@ -332,4 +332,74 @@ def solved_relations(tdgl, args, tmp):
     add("LoopSymmetry", "loop potential: mirror z -> -z leaves A unchanged", m(current_loop_vector_potential(mir, loop_center=(0, 0, 0), loop_radius=1.3, current=2.0)), A0)
     add("LoopSymmetry", "loop potential is azimuthal: A . r_perp = 0, A_z = 0",
         np.concatenate([(A0[:, 0] * lp[:, 0] + A0[:, 1] * lp[:, 1]), A0[:, 2]]), np.zeros(2 * len(lp)), scale=np.abs(A0).max() * np.abs(lp).max())
+    # ---- off-axis loops: translation covariance, symmetry about the LOOP axis, the CurrentLoop Parameter
+    from tdgl.sources import CurrentLoop
+    loopA = lambda P, c, R=1.3, I=2.0, **kw: m(current_loop_vector_potential(P, loop_center=c, loop_radius=R, current=I, **kw))
+    for c in ([1.7, -0.9, 0.3], [-2.2, 0.0, 0.0], [0.0, 3.1, -0.4]):
+        c = np.array(c)
+        Ac = loopA(lp + c, tuple(c))
+        add("LoopTranslation", f"loop potential: A(r + c; centre c = {c.tolist()}) vs A(r; centre 0)", Ac, A0)
+        rel_xy = lp[:, :2]                     # (r - c) in the plane
+        add("LoopSymmetry", f"off-axis loop (centre {c.tolist()}): A is tangential about the loop axis, A_z = 0",
+            np.concatenate([Ac[:, 0] * rel_xy[:, 0] + Ac[:, 1] * rel_xy[:, 1], Ac[:, 2]]), np.zeros(2 * len(lp)), scale=np.abs(A0).max() * np.abs(lp).max())
+        rho = np.hypot(rel_xy[:, 0], rel_xy[:, 1])
+        on_x = np.stack([rho, np.zeros_like(rho), lp[:, 2]], axis=1) + c      # same (rho, z) about the loop axis
+        add("LoopSymmetry", f"off-axis loop (centre {c.tolist()}): |A| depends only on (rho, z) about the loop axis",
+            np.linalg.norm(Ac, axis=1), np.linalg.norm(loopA(on_x, tuple(c)), axis=1))
+        add("LoopLinear", f"off-axis loop (centre {c.tolist()}): A(I = -5) vs -2.5 A(I = 2)", loopA(lp + c, tuple(c), I=-5.0), -2.5 * Ac)
+        add("LoopScaling", f"off-axis loop (centre {c.tolist()}): A(s r; s R, s c) vs A(r; R, c)", loopA((lp + c) * 3.0, tuple(3.0 * c), R=3.9), Ac)
+        add("LoopScaling", f"off-axis loop (centre {c.tolist()}): nm/mA statement of the same loop vs um/uA",
+            loopA((lp + c) * 1e3, tuple(1e3 * c), R=1300.0, I=2e-3, length_units="nm", current_units="mA"), Ac)
+        P = CurrentLoop(current=2.0, radius=1.3, center=tuple(c), current_units="uA", field_units="mT", length_units="um")
+        q = lp + c
+        add("LoopTranslation", f"CurrentLoop Parameter (centre {c.tolist()}) vs the loop function about the origin (mT um)",
+            lambda: np.asarray(P(q[:, 0], q[:, 1], q[:, 2])), A0 * 1e3 * 1e6)
     return {"rel": rel, "nsites": len(dev.mesh.sites), "frames": len(sol.times), "u": u}
+
+
+def time_dependent_relations(tdgl, args, tmp):
+    """A device solved with a time-dependent applied potential (ConstantField * LinearRamp) and save_every = k: at several solve
+    steps the applied part of vector_potential_at_position must be the Parameter evaluated at THAT frame's recorded time."""
+    import h5py
+    import numpy as np
+    from tdgl.sources import ConstantField, LinearRamp
+
+    from . import devices
+
+    k = args["k"]
+    dev = devices.make(tdgl, "film", mel=0.9)
+    work = tempfile.mkdtemp(prefix="tdep", dir=tmp)
+    dt, nsteps, B, T = 2.0 ** -6, args.get("steps", 50), 0.6, 0.5
+    A = ConstantField(B, field_units="mT", length_units="um") * LinearRamp(tmin=0.0, tmax=T)
+    opt = tdgl.SolverOptions(solve_time=nsteps * dt - dt / 2, dt_init=dt, adaptive=False, save_every=k, progress_interval=10 ** 9, pause_on_interrupt=False,
+                             output_file=os.path.join(work, f"k{k}.h5"), field_units="mT", current_units="uA")
+    sol = tdgl.solve(dev, opt, applied_vector_potential=A)
+    with h5py.File(sol.path, "r") as f:
+        times = {int(n): float(f["data"][n].attrs["time"]) for n in f["data"]}
+        steps = {int(n): int(f["data"][n].attrs["step"]) for n in f["data"]}
+    rel = []
+    pos = np.array([[0.3, 0.2, 0.5], [-1.0, 0.7, 1.0], [2.0, -1.0, 0.4], [4.0, 3.0, 2.0]])
+    m = lambda q: np.asarray(q.magnitude if hasattr(q, "magnitude") else q)
+    frames = sorted(times)
+    for n in sorted({frames[0], frames[1], frames[len(frames) // 2], frames[-2], frames[-1]}):
+        tag = f"[save_every={k}] frame {n} (solver step {steps[n]}, time {times[n]:.6g}): "
+        try:
+            sol.solve_step = n
+            parts = sol.vector_potential_at_position(pos, return_sum=False)
+            tot = m(sol.vector_potential_at_position(pos))
+            ap = m(parts["applied"])
+            at_frame_time = np.asarray(sol.applied_vector_potential(pos[:, 0], pos[:, 1], pos[:, 2], t=times[n]))
+            ramp = min(1.0, max(0.0, times[n] / T))
+            closed = 0.5 * B * ramp * np.stack([-pos[:, 1], pos[:, 0]], axis=1)
+            sc = 0.5 * B * np.abs(pos[:, :2]).max()
+            rel.append({"name": "AppliedAtFrameTime", "what": tag + "applied part vs the applied Parameter evaluated at the frame's recorded time",
+                        "a": ap[:, :2].reshape(-1).tolist(), "b": np.asarray(at_frame_time, dtype=float)[:, :2].reshape(-1).tolist(), "scale": sc})
+            rel.append({"name": "AppliedAtFrameTime", "what": tag + "applied part vs B ramp(t_frame) x r / 2 (differences between points)",
+                        "a": (ap[:, :2] - ap[0, :2]).reshape(-1).tolist(), "b": (closed - closed[0]).reshape(-1).tolist(), "scale": sc})
+            rel.append({"name": "AppliedPlusInduced", "what": tag + "total vs applied + supercurrent + normal",
+                        "a": tot.reshape(-1).tolist(), "b": (ap + m(parts["supercurrent_density"]) + m(parts["normal_current_density"])).reshape(-1).tolist(), "scale": sc})
+            rel.append({"name": "AppliedAtFrameTime", "what": tag + "Solution.times[frame] vs the time recorded with the frame",
+                        "a": [float(sol.times[n])], "b": [times[n]], "scale": T})
+        except Exception as e:
+            rel.append({"name": "AppliedAtFrameTime", "what": tag + f"the real code raised {type(e).__name__}: {e}"[:200], "a": [0.0], "b": [1.0], "scale": 1.0})
+    return {"rel": rel, "nsites": len(dev.mesh.sites), "frames": len(frames), "u": f"save_every={k}"}
